@@ -25,6 +25,7 @@ struct Shared {
     notify: tokio::sync::Notify,
     fail_sends: Mutex<VecDeque<bool>>,
     sent: Mutex<Vec<&'static str>>,
+    dests: Mutex<Vec<SocketAddr>>,
     chitchat: Mutex<Option<Arc<tokio::sync::Mutex<Chitchat>>>>,
     lock_violations: AtomicUsize,
     opened: AtomicUsize,
@@ -57,8 +58,11 @@ impl ScriptSocket {
 
 #[async_trait]
 impl Socket for ScriptSocket {
-    async fn send(&mut self, _to: SocketAddr, msg: ChitchatMessage) -> anyhow::Result<()> {
+    async fn send(&mut self, to: SocketAddr, msg: ChitchatMessage) -> anyhow::Result<()> {
         self.check_lock();
+        if matches!(msg, ChitchatMessage::Syn { .. }) {
+            self.shared.dests.lock().unwrap().push(to);
+        }
         let kind = match msg {
             ChitchatMessage::Syn { .. } => "syn",
             ChitchatMessage::SynAck { .. } => "synack",
@@ -348,4 +352,124 @@ pub fn udp_case(seed: u64, case: usize) -> String {
         let _ = writeln!(trace, "= {obs}");
     }
     trace
+}
+
+
+// ------------------------------------------------------------------------------------------
+// S-round (C17): the pools of one real gossip round. The server (`spawn_chitchat`, scripted
+// transport, paused clock) learns peers from injected SYNs, some become live (two heartbeats),
+// some dead, seeds may include the node's own address and unknown addresses. Just before a round
+// the four pools are computed from the public API the way the property says (self filtered from
+// peers, live and seeds); the destinations of the SYNs sent by that round are recorded.
+fn addr_tok(a: &SocketAddr) -> String {
+    match a.ip() {
+        std::net::IpAddr::V4(ip) => format!("4.{}.{}", u32::from(ip), a.port()),
+        std::net::IpAddr::V6(ip) => format!("6.{}.{}", u128::from(ip), a.port()),
+    }
+}
+
+pub async fn gen_round(trace: &mut String, rng: &mut Prng, counts: &mut std::collections::BTreeMap<String, u64>, name: &str) {
+    use std::fmt::Write as _;
+    let _ = writeln!(trace, "CASE {name}");
+    let shared = Arc::new(Shared::default());
+    let transport = ScriptTransport { shared: shared.clone() };
+    let id = mk_id("srv", 0, 8000);
+    let self_addr = id.gossip_advertise_addr;
+    let interval = Duration::from_secs(1);
+    let n_peers = rng.range(0, 5);
+    let peer_addr = |i: u64| -> SocketAddr { ([10, 0, 1, i as u8], 9000 + i as u16).into() };
+    // seeds: any subset of {self, peers, an address nobody uses}
+    let mut seeds: Vec<String> = Vec::new();
+    if rng.chance(1, 2) {
+        seeds.push(self_addr.to_string());
+    }
+    for i in 0..n_peers {
+        if rng.chance(1, 3) {
+            seeds.push(peer_addr(i).to_string());
+        }
+    }
+    if rng.chance(1, 3) {
+        seeds.push("10.9.9.9:9".to_string());
+    }
+    let config = ChitchatConfig {
+        chitchat_id: id.clone(),
+        cluster_id: "c".to_string(),
+        gossip_interval: interval,
+        listen_addr: self_addr,
+        seed_nodes: seeds.clone(),
+        failure_detector_config: FailureDetectorConfig::new(8.0, 1000, Duration::from_secs(10), Duration::from_secs(5), Duration::from_secs(1_000_000)),
+        marked_for_deletion_grace_period: Duration::from_secs(1_000_000),
+        catchup_callback: None,
+        extra_liveness_predicate: None,
+    };
+    let handle = spawn_chitchat(config, Vec::new(), &transport).await.expect("spawn");
+    *shared.chitchat.lock().unwrap() = Some(handle.chitchat());
+    settle().await;
+    // which peers keep heartbeating (live) and which are heard once only (dead after evaluation)
+    let keeps: Vec<bool> = (0..n_peers).map(|_| rng.chance(1, 2)).collect();
+    let wid_of_peer = |i: u64| WId { name: format!("p{i}").into_bytes(), generation: 0, ipv: 4, ip: 0x0a000100 + i as u128, port: 9000 + i as u16 };
+    for round in 1..=3u64 {
+        let entries: Vec<(WId, u64, u64, u64)> = (0..n_peers)
+            .filter(|i| round == 1 || keeps[*i as usize])
+            .map(|i| (wid_of_peer(i), round, 0, 0))
+            .collect();
+        if !entries.is_empty() {
+            let mut bytes = Vec::new();
+            put_header(&mut bytes, 0);
+            put_digest(&mut bytes, &entries);
+            crate::util::put_str(&mut bytes, b"c");
+            shared.events.lock().unwrap().push_back(Ev::Msg(peer_addr(0), bytes));
+            shared.notify.notify_one();
+            settle().await;
+        }
+        tokio::time::advance(interval).await;
+        settle().await;
+    }
+    // the pools, as the property defines them, from the public API
+    let (peers, live, dead): (Vec<SocketAddr>, Vec<SocketAddr>, Vec<SocketAddr>) = {
+        let cc = handle.chitchat();
+        let g = cc.lock().await;
+        let me = g.self_chitchat_id().clone();
+        let peers = g.node_states().keys().filter(|i| **i != me).map(|i| i.gossip_advertise_addr).collect();
+        let live = g.live_nodes().filter(|i| **i != me).map(|i| i.gossip_advertise_addr).collect();
+        let dead = g.dead_nodes().map(|i| i.gossip_advertise_addr).collect();
+        (peers, live, dead)
+    };
+    let seed_addrs: Vec<SocketAddr> = seeds.iter().filter_map(|s| s.parse().ok()).filter(|a: &SocketAddr| *a != self_addr).collect();
+    shared.dests.lock().unwrap().clear();
+    tokio::time::advance(interval).await;
+    settle().await;
+    let dests: Vec<SocketAddr> = std::mem::take(&mut *shared.dests.lock().unwrap());
+    let list = |tag: &str, v: &[SocketAddr]| {
+        let mut s = format!(" {tag} {}", v.len());
+        let mut sorted: Vec<String> = v.iter().map(addr_tok).collect();
+        sorted.sort();
+        sorted.dedup();
+        let mut s2 = format!(" {tag} {}", sorted.len());
+        for a in sorted {
+            s2.push(' ');
+            s2.push_str(&a);
+        }
+        let _ = &mut s;
+        s2
+    };
+    let mut op = format!("GROUND {}", addr_tok(&self_addr));
+    op.push_str(&list("P", &peers));
+    op.push_str(&list("L", &live));
+    op.push_str(&list("D", &dead));
+    op.push_str(&list("S", &seed_addrs));
+    let _ = write!(op, " DESTS {}", dests.len());
+    for d in &dests {
+        op.push(' ');
+        op.push_str(&addr_tok(d));
+    }
+    let _ = writeln!(trace, "{op}");
+    let _ = writeln!(trace, "= ok");
+    *counts.entry("round_cases".to_string()).or_insert(0) += 1;
+    *counts.entry(format!("round_live_{}", live.len().min(3))).or_insert(0) += 1;
+    *counts.entry(format!("round_dead_{}", dead.len().min(3))).or_insert(0) += 1;
+    if seeds.iter().any(|s| *s == self_addr.to_string()) {
+        *counts.entry("round_self_is_seed".to_string()).or_insert(0) += 1;
+    }
+    let _ = handle.shutdown().await;
 }
